@@ -208,6 +208,7 @@ def run_case(case):
     ref.run(prog[:rec], catch=True)
     up = upstream_names(ref.env, L)
     pre_creators = {n: ref.env[n]._creator is not None for n in up}
+    rec_const = {n: bool(ref.env[n].constant) for n in up if mgrun.is_tensor(ref.env[n])}    # the flags L's graph was RECORDED with
     ref.env[L].backward()
     ref_grads = {n: (None if ref.env[n].grad is None else ref.env[n].grad.copy()) for n in up if not ref.env[n].constant}
     # the history itself
@@ -242,7 +243,8 @@ def run_case(case):
             if st["k"] in ("setitem", "aug", "uout", "setshape") and i not in it.raised:
                 o = sh.owner.get(st["tgt"])
                 fam = {n for n, oo in sh.owner.items() if oo == o}
-                if any(n in up and mgrun.is_tensor(it.env.get(n)) and it.env[n].constant for n in fam):
+                # (constant when the graph was recorded - a tensor that an in-place statement has since *turned* constant is not this mechanism)
+                if any(n in up and rec_const.get(n) for n in fam):
                     const_mut_after_clear = True
     # mechanism probe (for classification only): is there an operation in L's recorded graph one of whose inputs no longer lists
     # it as a consumer although that input's consumer set is non-empty again (cleared, then refilled by re-use)?
